@@ -74,7 +74,11 @@ def build(case, with_layer=True):
     layer = None
     if with_layer:
         if kind == "serial":
-            layer = sn.Serial(comps["conn"]["c0"], comps["neur"]["n0"], transform=_tf(case["tf"]["c0"]))
+            if case.get("names"):
+                layer = sn.Serial(comps["conn"]["c0"], comps["neur"]["n0"], transform=_tf(case["tf"]["c0"]),
+                                  connection_name="inp", neuron_name="grp")
+            else:
+                layer = sn.Serial(comps["conn"]["c0"], comps["neur"]["n0"], transform=_tf(case["tf"]["c0"]))
         elif kind == "biclique":
             conns = []
             for name in case["conns"]:
@@ -119,17 +123,20 @@ def hash_name(s):
 def layer_step(case, layer, xs, t, capture=False):
     """Calls the layer for step t; returns (dict name->output, dict name->connection output|None)."""
     kind = case["kind"]
+    nkw = case.get("nkw") or None
     if kind == "serial":
-        r = layer(torch.tensor(xs["c0"][t]), capture_intermediate=capture)
+        r = layer(torch.tensor(xs["c0"][t]), capture_intermediate=capture, neuron_kwargs=nkw)
         if capture:
             return {"n0": r[0]}, {"c0": r[1]}
         return {"n0": r}, None
     if kind == "biclique":
-        r = layer({k: (torch.tensor(v[t]),) for k, v in xs.items()}, capture_intermediate=capture)
+        r = layer({k: (torch.tensor(v[t]),) for k, v in xs.items()}, capture_intermediate=capture,
+                  neuron_kwargs=({k: nkw for k in case["neurs"]} if nkw else None))
         if capture:
             return dict(r[0]), dict(r[1])
         return dict(r), None
-    r = layer(torch.tensor(xs["ff"][t]), capture_intermediate=capture)
+    r = layer(torch.tensor(xs["ff"][t]), capture_intermediate=capture,
+              feedfwd_neuron_kwargs=nkw, feedback_neuron_kwargs=nkw)
     if capture:
         names = {"feedfwd": "ff", "lateral": "lat", "feedback": "fb"}
         return {"nff": r[0][0], "nfb": r[0][1]}, {names.get(k, k): v for k, v in r[1].items()}
@@ -140,22 +147,23 @@ def model_step(case, comps, xs, t, mem):
     """Documented composition on twin components; returns (outputs, connection outputs)."""
     kind = case["kind"]
     C, N = comps["conn"], comps["neur"]
+    nkw = case.get("nkw") or {}
     if kind == "serial":
         co = C["c0"](torch.tensor(xs["c0"][t]))
-        return {"n0": N["n0"](_apply(case["tf"]["c0"], co))}, {"c0": co}
+        return {"n0": N["n0"](_apply(case["tf"]["c0"], co), **nkw)}, {"c0": co}
     if kind == "biclique":
         cos = {k: C[k](torch.tensor(xs[k][t])) for k in case["conns"]}
         comb = _combine_model(case["combine"], [_apply(case["tf"][k], cos[k]) for k in case["conns"]])
-        return {k: N[k](_apply(case["tf"][k], comb)) for k in case["neurs"]}, cos
+        return {k: N[k](_apply(case["tf"][k], comb), **nkw) for k in case["neurs"]}, cos
     # recurrent serial
     fb_prev = mem.get("fb")
     if fb_prev is None:
         fb_prev = torch.zeros((case["batch"],) + tuple(case["neurs"]["nfb"]["shape"]), dtype=torch.bool)
     co_ff = C["ff"](torch.tensor(xs["ff"][t]))
     co_fb = C["fb"](fb_prev)
-    ff = N["nff"](_apply(case["tf"]["ff"], co_ff) + _apply(case["tf"]["fb"], co_fb))
+    ff = N["nff"](_apply(case["tf"]["ff"], co_ff) + _apply(case["tf"]["fb"], co_fb), **nkw)
     co_lat = C["lat"](ff)
-    fb = N["nfb"](_apply(case["tf"]["lat"], co_lat))
+    fb = N["nfb"](_apply(case["tf"]["lat"], co_lat), **nkw)
     mem["fb"] = fb
     return {"nff": ff, "nfb": fb}, {"ff": co_ff, "fb": co_fb, "lat": co_lat}
 
@@ -290,7 +298,8 @@ def layer_case(draw, tier="quick", for_clear=False):
     case = {"kind": kind, "dt": draw(st.sampled_from([1.0, 0.5])), "batch": draw(st.integers(1, 3)),
             "steps": draw(st.integers(3, 8 if for_clear else 15)), "sseed": draw(st.integers(0, 99999)),
             "rate": draw(st.sampled_from([0.3, 0.6, 0.9])), "train": draw(st.booleans()),
-            "capture": draw(st.booleans()), "tf": {}, "conns": {}, "neurs": {}}
+            "capture": draw(st.booleans()), "tf": {}, "conns": {}, "neurs": {},
+            "names": draw(st.booleans()), "nkw": draw(st.sampled_from([None, None, {"refrac_lock": False}]))}
     shp = st.sampled_from([[2], [3], [2, 2]])
     if kind == "serial":
         i, o = draw(shp), draw(shp)
